@@ -23,6 +23,11 @@ def _replay_state(st, W, E):
     for v in hist:
         w.update(v)
         e.update(v)
+        # accessors are read after every update: they must be pure functions of the state (no stale caches)
+        sd, vr = float(w.std), float(w.var)
+        if abs(sd * sd - vr) > 1e-9 * (1 + vr) or F(w.mean) != F(w.get()) or F(e.get()) != F(e.tracked_value):
+            problems.append(("welford.accessors", (sd, vr, str(w.mean), str(w.get())), "std^2 = var, mean = get() after every update"))
+            break
     if (w.N, F(w.get()), F(w.var)) != want_w or F(w.mean) != want_w[1]:
         problems.append(("welford.exact", (w.N, str(w.get()), str(w.var)), tuple(map(str, want_w))))
     if (e.N, F(e.get())) != want_e:
@@ -35,6 +40,7 @@ def _replay_state(st, W, E):
         for v in hist:
             w.update(conv(v))
             e.update(conv(v))
+            float(w.std), float(w.var), w.mean, w.get(), e.get()      # read mid-stream as well
         tol = 1e-12 * (1 + sum(abs(float(v)) for v in hist)) * (1 + len(hist))
         tol2 = 1e-12 * (1 + sum(float(v) ** 2 for v in hist)) * (1 + len(hist))
         ok = (w.N == want_w[0] and abs(float(w.get()) - float(want_w[1])) <= tol and
